@@ -307,10 +307,12 @@ pub fn fnv(bytes: &[u8]) -> u64 {
     h
 }
 pub fn fnv_fe(h: u64, x: &Fe) -> u64 {
+    // hash the internal (Montgomery) limbs: a bijection of the value
     let mut h = h;
-    for b in x.to_bytes() {
-        h ^= b as u64;
+    for l in x.0 {
+        h ^= l;
         h = h.wrapping_mul(0x100000001b3);
+        h ^= h >> 29;
     }
     h
 }
